@@ -122,7 +122,7 @@ pub struct Entry {
 }
 impl Entry { pub fn label(&self) -> String { format!("{}<{}>{:?}", self.family, self.ft, self.params) } }
 
-fn b<D, T>(d: D) -> Option<Box<dyn Obj>> where D: Distribution<T> + Clone + PartialEq + Debug + Ser + 'static, T: IntoOut + 'static {
+pub fn b<D, T>(d: D) -> Option<Box<dyn Obj>> where D: Distribution<T> + Clone + PartialEq + Debug + Ser + 'static, T: IntoOut + 'static {
     Some(Box::new(W(d, std::marker::PhantomData::<T>)))
 }
 
@@ -242,7 +242,10 @@ pub fn registry() -> Vec<Entry> {
     for (n, p, var) in [(10u64, 0.0f64, "Constant"), (10, 1.0, "Constant"), (10, 0.3, "Binv"), (10, 0.7, "Binv flipped"), (19, 0.5, "Binv"), (100, 0.05, "Binv"),
                         (100, 0.3, "Btpe"), (100, 0.305, "Btpe"), (100, 0.7, "Btpe flipped"), (1000, 0.5005, "Btpe"), (21, 0.5, "Btpe"), (1000, 0.5, "Btpe"), (1u64 << 62, 0.5, "Btpe"),
                         (16_000_000, 3.14e-10, "Poisson"), (u64::MAX, 1e-19, "Binv"), (1u64 << 40, 1e-12, "Binv"), (1u64 << 62, 1e-30, "Poisson"), (40, 0.25, "Btpe"),
-                        (u64::MAX, 0.5, "Btpe"), (u64::MAX, 0.999, "Btpe flipped"), (1u64 << 63, 1e-18, "Binv"), (1u64 << 32, 2.5e-9, "Btpe")] {
+                        (u64::MAX, 0.5, "Btpe"), (u64::MAX, 0.999, "Btpe flipped"),
+                        // BINV with huge n (n*p < 10, 1-p != 1): the inverse-transform walk must not depend on n
+                        (1u64 << 40, 3.0 / (1u64 << 40) as f64, "Binv"), (1u64 << 40, 8.0 / (1u64 << 40) as f64, "Binv"), (1u64 << 50, 0.5 / (1u64 << 50) as f64, "Binv"),
+                        (1u64 << 50, 6.0 / (1u64 << 50) as f64, "Binv"), (1u64 << 52, 3.5e-16, "Binv"), (1u64 << 45, 9.5 / (1u64 << 45) as f64, "Binv"), (1u64 << 63, 1e-18, "Binv"), (1u64 << 32, 2.5e-9, "Btpe")] {
         ent!(v, "Binomial", "int", var, [n, p], Binomial::new(n, p).ok().and_then(b::<_, u64>)); }
     for p in [1.0f64, 0.9, 2.0 / 3.0, 0.66, 0.5, 0.25, 0.01, 1e-9, 0.0, 1e-17] {
         ent!(v, "Geometric", "int", "-", [p], Geometric::new(p).ok().and_then(b::<_, u64>)); }
